@@ -11,25 +11,29 @@
 
    Hypotheses (they appear in the statements):
      stamp_determines  at any two moments of the history, equal (dev, ino, ms AS THE CACHE COMPUTES
-                       IT, length) => equal content.  This is the property's proviso ("each content
+                       IT = rounded towards zero, length) => equal content.  This is the property's proviso ("each content
                        change also changes the mtime at ms resolution or the length"), read over
                        pairs of moments so that it also covers inode reuse.  It EXCLUDES: a same-size
                        rewrite that keeps the mtime within the same millisecond (excluded_same_ms
                        below shows the stale answer), setting an old mtime back, `cp -p` onto a
                        reused inode with equal length.
-     tree_faithful     configurations that map to the same sled tree denote the same transform.
+     nul_free          the transform command strings contain no NUL byte (they are command line arguments);
+                       with it "the tree id determines the transform configuration" is a theorem
+                       (C12_tree_id_injective), no longer a hypothesis.
    Modelling assumptions (not hypotheses of the theorems, see notes/K.md): the world does not change
    during a run (no write between the stat and the read of one call); T is a function of the file
    content only; a hasher with a transform is only asked hash_transformed, one without only
    hash_file (group.rs); I/O failures are a field of the call (c_io) and `nofail` restricts the
    comparison to calls whose read succeeds (a cache hit answers without reading).
 
-   Found while modelling (confirmed on the real binary, see notes/K.md): the property as worded fails in
-   three classes, each with a witness below and excluded by an explicit hypothesis in
-   C12_same_result_except_K:
-     KC1  mtimes before 1970 are all stored as 0 ms      (~ no_preepoch)
-     KC2  --in-place is not part of the tree id          (~ flags_irrelevant)
-     KC3  a transform command "<none>" aliases the tree of "no transform"   (~ no_none_cmd)  *)
+   History: three defect classes were found with this model and are repaired in /repo; the model follows the
+   repaired code and they are regression Examples below: KC1 every mtime before 1970 stored as 0 ms (db63622),
+   KC2 --in-place / --no-copy missing from the tree id (2b878ef), KC3 transform ids that coincided ("<none>",
+   flag text inside the command) (ea68843: the parts of the id are now separated by NUL).
+   Rounding (an observation, not a finding): timestamp_ms rounds TOWARDS ZERO, so (-1 ms, +1 ms) is one stamp and a
+   whole negative millisecond shares its stamp with the 1 ms below it; `stamp_determines` is stated with that
+   value.  The form with the mtime rounded DOWN needs `preepoch_whole_ms` (C12_same_result_rounded_down);
+   C12_epoch_bucket shows why. *)
 From FV Require Import Base CacheModel CacheProofs CacheProofs2 CacheProofs3.
 Open Scope N_scope.
 
@@ -40,7 +44,7 @@ Open Scope N_scope.
    (earlier or later) at which inode id has the stamp (mt, fl). *)
 Theorem C12_entries_valid :
   forall (H : N -> bytes -> hashv) (T : tconf -> bytes -> option bytes) (h : list event) (w0 : world),
-  stamp_determines (moments H T ([], w0) h) -> tree_faithful T (confs h) ->
+  stamp_determines (moments H T ([], w0) h) -> nul_free (confs h) ->
   forall h1 h2, h = h1 ++ h2 ->
   forall t k e, In ((t, k), e) (fst (exec H T ([], w0) h1)) ->
   forall a tr, In (a, tr) (confs h) -> tree_of a tr = t ->
@@ -50,7 +54,7 @@ Theorem C12_entries_valid :
     | None => e_h e = H a (chunk (key_pos k) (key_len k) (i_data i)) /\ e_dl e = key_len k
     | Some cf => key_pos k = 0 /\ exists d', T cf (i_data i) = Some d' /\ e_dl e = nlen d' /\ e_h e = H a d'
     end.
-Proof. exact entries_valid_reachable. Qed.
+Proof. exact entries_valid_nul_free. Qed.
 Print Assumptions C12_entries_valid.
 
 (* At every moment (after any history), a run with ANY configuration (a, tr) of ANY program of
@@ -61,32 +65,41 @@ Print Assumptions C12_entries_valid.
 Theorem C12_same_result :
   forall (H : N -> bytes -> hashv) (T : tconf -> bytes -> option bytes)
          (h : list event) (w0 : world) (a : N) (tr : option tconf) (R : Type) (p : prog R),
-  stamp_determines (moments H T ([], w0) h) -> tree_faithful T ((a, tr) :: confs h) -> nofail p ->
+  stamp_determines (moments H T ([], w0) h) -> nul_free ((a, tr) :: confs h) -> nofail p ->
   fst (run_cached H T a tr p (fst (exec H T ([], w0) h)) (snd (exec H T ([], w0) h)))
   = run_plain H T a tr p (snd (exec H T ([], w0) h)).
-Proof. exact same_result. Qed.
+Proof. exact same_result_nul_free. Qed.
 Print Assumptions C12_same_result.
 
-(* The same from the property's own wording of the proviso (the REAL millisecond mtime), outside
-   the three classes KC1-KC3. *)
-Theorem C12_same_result_except_K :
+(* The same with the mtime rounded DOWN to milliseconds (the usual reading of "millisecond resolution"). *)
+Theorem C12_same_result_rounded_down :
   forall (H : N -> bytes -> hashv) (T : tconf -> bytes -> option bytes)
          (h : list event) (w0 : world) (a : N) (tr : option tconf) (R : Type) (p : prog R),
   mtime_determines (moments H T ([], w0) h) ->
-  no_preepoch (moments H T ([], w0) h) ->
-  no_none_cmd ((a, tr) :: confs h) -> flags_irrelevant T ((a, tr) :: confs h) ->
+  preepoch_whole_ms (moments H T ([], w0) h) ->
+  nul_free ((a, tr) :: confs h) ->
   nofail p ->
   fst (run_cached H T a tr p (fst (exec H T ([], w0) h)) (snd (exec H T ([], w0) h)))
   = run_plain H T a tr p (snd (exec H T ([], w0) h)).
-Proof. exact same_result_except_K. Qed.
-Print Assumptions C12_same_result_except_K.
+Proof. exact same_result_rounded_down. Qed.
+Print Assumptions C12_same_result_rounded_down.
+
+(* The tree id determines the configuration: among configurations whose command strings are NUL-free, equal sled
+   trees mean equal (algorithm, command, in_place, copy) — in particular a transform never shares the tree of
+   "no transform". *)
+Theorem C12_tree_id_injective : forall cs, nul_free cs ->
+  forall a1 t1 a2 t2, In (a1, t1) cs -> In (a2, t2) cs -> tree_of a1 t1 = tree_of a2 t2 -> a1 = a2 /\ t1 = t2.
+Proof.
+  exact (fun cs Hn a1 t1 a2 t2 I1 I2 E => conj (tree_of_algo a1 t1 a2 t2 E) (nul_free_no_alias cs Hn a1 t1 a2 t2 I1 I2 E)).
+Qed.
+Print Assumptions C12_tree_id_injective.
 
 (* Why switching algorithm / transform / prefix-suffix sizes cannot matter: an entry is served only
    for the same tree, the same (file id, chunk position, chunk length) and the same (ms, length). *)
 Theorem C12_get_put : forall t k m c t' k' m' dl h,
   cache_get t k m (cache_put t' k' m' dl h c) =
   if tree_eqb t t' && key_eqb k k'
-  then (if (code_ms (m_mtime m') =? code_ms (m_mtime m)) && (m_len m' =? m_len m) then Some (dl, h) else None)
+  then (if Z.eqb (code_ms (m_mtime m')) (code_ms (m_mtime m)) && (m_len m' =? m_len m) then Some (dl, h) else None)
   else cache_get t k m c.
 Proof. exact cache_get_put. Qed.
 Print Assumptions C12_get_put.
@@ -95,35 +108,52 @@ Print Assumptions C12_get_put.
 Theorem C12_checkers_sound : forall ws,
   (stamp_determines_b ws = true -> stamp_determines ws) /\
   (mtime_determines_b ws = true -> mtime_determines ws) /\
-  (preepoch_b ws = false -> no_preepoch ws).
-Proof. exact (fun ws => conj (stamp_determines_b_sound ws) (conj (mtime_determines_b_sound ws) (preepoch_b_sound ws))). Qed.
+  (preepoch_fraction_b ws = false -> preepoch_whole_ms ws).
+Proof.
+  exact (fun ws => conj (stamp_determines_b_sound ws) (conj (mtime_determines_b_sound ws) (preepoch_fraction_b_sound ws))).
+Qed.
 Print Assumptions C12_checkers_sound.
 
-(* ---- witnesses: the three classes really break the property as worded (hypotheses of
-        C12_same_result_except_K all hold except the named one, and the answers differ) ---- *)
-Lemma C12_KC1_witness :
-  mtime_determines (moments Hx Tid ([], empty_world) hK1) /\
-  no_none_cmd ((0, None) :: confs hK1) /\ flags_irrelevant Tid ((0, None) :: confs hK1) /\
-  nofail (probe 1 0 1) /\
-  ~ no_preepoch (moments Hx Tid ([], empty_world) hK1) /\
-  cached_answer Hx Tid hK1 0 None (probe 1 0 1) <> plain_answer Hx Tid hK1 0 None (probe 1 0 1).
-Proof. exact KC1_witness. Qed.
+(* ---- regression examples for the repaired classes ---- *)
+(* mtimes before the epoch get distinct (negative) stamps: the rewrite from -5 s to -9 s is seen *)
+Example C12_preepoch_distinct :
+  stamp_determines (moments Hx Tid ([], empty_world) hK1) /\
+  lookup (tree_of 0 None) (id7, 0, 1) (fst (exec Hx Tid ([], empty_world) hK1)) = Some (mkE (-5000)%Z 1 1 (Hx 0 [97])) /\
+  cached_answer Hx Tid hK1 0 None (probe 1 0 1) = RHash (Hx 0 [98]) /\
+  plain_answer Hx Tid hK1 0 None (probe 1 0 1) = RHash (Hx 0 [98]).
+Proof. exact ex_preepoch. Qed.
 
-Lemma C12_KC2_witness :
-  mtime_determines (moments Hx Tip ([], empty_world) hK2) /\ no_preepoch (moments Hx Tip ([], empty_world) hK2) /\
-  no_none_cmd ((0, Some (sedc true)) :: confs hK2) /\
-  nofail (probe 1 0 2) /\
-  (t_cmd (sedc true) = t_cmd (sedc false) /\ Tip (sedc true) [97; 98] <> Tip (sedc false) [97; 98]) /\
-  cached_answer Hx Tip hK2 0 (Some (sedc true)) (probe 1 0 2) <> plain_answer Hx Tip hK2 0 (Some (sedc true)) (probe 1 0 2).
-Proof. exact KC2_witness. Qed.
+(* the same command with and without --in-place: two trees, no stale answer although the transforms differ *)
+Example C12_inplace_switch :
+  tree_of 0 (Some (sedc true)) <> tree_of 0 (Some (sedc false)) /\
+  nul_free ((0, Some (sedc true)) :: confs hK2) /\
+  Tip (sedc true) [97; 98] <> Tip (sedc false) [97; 98] /\
+  cached_answer Hx Tip hK2 0 (Some (sedc true)) (probe 1 0 2) = plain_answer Hx Tip hK2 0 (Some (sedc true)) (probe 1 0 2).
+Proof. exact ex_inplace_switch. Qed.
 
-Lemma C12_KC3_witness :
-  mtime_determines (moments Hx Thead ([], empty_world) hK3) /\ no_preepoch (moments Hx Thead ([], empty_world) hK3) /\
-  flags_irrelevant Thead ((0, Some nonec) :: confs hK3) /\
-  nofail (probe 1 0 2) /\
-  t_cmd nonec = none_str /\
-  cached_answer Hx Thead hK3 0 (Some nonec) (probe 1 0 2) <> plain_answer Hx Thead hK3 0 (Some nonec) (probe 1 0 2).
-Proof. exact KC3_witness. Qed.
+(* a command that reads "<none>" has its own tree *)
+Example C12_none_named :
+  tree_of 0 (Some nonec) <> tree_of 0 None /\
+  nul_free ((0, Some nonec) :: confs hK3) /\
+  cached_answer Hx Thead hK3 0 (Some nonec) (probe 1 0 2) = plain_answer Hx Thead hK3 0 (Some nonec) (probe 1 0 2).
+Proof. exact ex_none_named. Qed.
+
+(* 's $IN --in-place' as the command vs 's $IN' with --in-place: two trees *)
+Example C12_flag_text :
+  tree_of 0 (Some cA) <> tree_of 0 (Some cB) /\
+  nul_free ((0, Some cB) :: confs hK3b) /\
+  Tip cA [97; 98] <> Tip cB [97; 98] /\
+  cached_answer Hx Tip hK3b 0 (Some cB) (probe 1 0 2) = plain_answer Hx Tip hK3b 0 (Some cB) (probe 1 0 2).
+Proof. exact ex_flag_text. Qed.
+
+(* the 2 ms wide stamp around the epoch: different milliseconds when rounded down, one stamp for the cache *)
+Example C12_epoch_bucket :
+  mtime_determines_b (moments Hx Tid ([], empty_world) hEpoch) = true /\
+  stamp_determines_b (moments Hx Tid ([], empty_world) hEpoch) = false /\
+  preepoch_fraction_b (moments Hx Tid ([], empty_world) hEpoch) = true /\
+  cached_answer Hx Tid hEpoch 0 None (probe 1 0 1) = RHash (Hx 0 [97]) /\
+  plain_answer Hx Tid hEpoch 0 None (probe 1 0 1) = RHash (Hx 0 [98]).
+Proof. exact epoch_bucket. Qed.
 
 (* ---- what the proviso excludes: same-size rewrite inside the same millisecond -> stale answer ---- *)
 Example C12_proviso_is_needed :
@@ -137,7 +167,7 @@ Proof. exact excluded_same_ms. Qed.
 Example C12_rewrite_invalidates :
   stamp_determines (moments Hx Tid ([], empty_world) hRewrite) /\
   tree_faithful Tid ((0, None) :: confs hRewrite) /\
-  lookup (tree_of 0 None) (id7, 0, 3) (fst (state_after hRewrite)) = Some (mkE 5 3 3 (Hx 0 [97; 98; 99])) /\
+  lookup (tree_of 0 None) (id7, 0, 3) (fst (state_after hRewrite)) = Some (mkE 5%Z 3 3 (Hx 0 [97; 98; 99])) /\
   (exists m, meta_of (snd (state_after hRewrite)) 1 = Some m /\
              cache_get (tree_of 0 None) (id7, 0, 3) m (fst (state_after hRewrite)) = None) /\
   cached_answer Hx Tid hRewrite 0 None (probe 1 0 3) = RHash (Hx 0 [97; 98; 100]).
@@ -155,7 +185,7 @@ Proof. exact ex_rename_reused. Qed.
 (* inode reuse: unlink, then another file gets the same inode number with another mtime *)
 Example C12_inode_reuse :
   stamp_determines (moments Hx Tid ([], empty_world) hReuse) /\
-  lookup (tree_of 0 None) (id7, 0, 3) (fst (state_after hReuse)) = Some (mkE 5 3 3 (Hx 0 [97; 98; 99])) /\
+  lookup (tree_of 0 None) (id7, 0, 3) (fst (state_after hReuse)) = Some (mkE 5%Z 3 3 (Hx 0 [97; 98; 99])) /\
   cached_answer Hx Tid hReuse 0 None (probe 2 0 3) = RHash (Hx 0 [120; 121; 122]).
 Proof. exact ex_inode_reuse. Qed.
 
